@@ -62,18 +62,26 @@ pub fn const_eval_check_variant_indexes(
 	quote! {
 		#[automatically_derived]
 		const _: () = {
+			// The index expressions are written by the user and may name the user's own constants:
+			// they are evaluated here, where none of the helper items below is in scope. (The
+			// local bindings of the helpers carry a trailing underscore for the same reason: a
+			// constant of the same name in the user's scope would turn them into patterns.)
 			#[allow(clippy::unnecessary_cast)]
 			#[allow(clippy::cast_possible_truncation)]
-			const indices: [(usize, &'static str); #len] = [#( #recurse_indices ,)*];
+			const __PARITY_SCALE_CODEC_VARIANT_INDICES: [(usize, &'static str); #len] =
+				[#( #recurse_indices ,)*];
 
-			const fn search_for_invalid_index(array: &[(usize, &'static str); #len]) -> (bool, usize) {
-				let mut i = 0;
-				while i < #len {
-					if array[i].0 > 255 {
-						return (true, i);
+			const _: () = {
+			const indices: [(usize, &'static str); #len] = __PARITY_SCALE_CODEC_VARIANT_INDICES;
+
+			const fn search_for_invalid_index(array_: &[(usize, &'static str); #len]) -> (bool, usize) {
+				let mut i_ = 0;
+				while i_ < #len {
+					if array_[i_].0 > 255 {
+						return (true, i_);
 					}
 
-					i += 1;
+					i_ += 1;
 				}
 
 				(false, 0)
@@ -82,29 +90,29 @@ pub fn const_eval_check_variant_indexes(
 			const INVALID_INDEX: (bool, usize) = search_for_invalid_index(&indices);
 
 			if INVALID_INDEX.0 {
-				let msg = #crate_path::__private::concatcp!(
+				let msg_ = #crate_path::__private::concatcp!(
 					"Found variant `",
 					indices[INVALID_INDEX.1].1,
 					"` with invalid index: `",
 					indices[INVALID_INDEX.1].0,
 					"`. Max supported index is 255.",
 				);
-				::core::panic!("{}", msg);
+				::core::panic!("{}", msg_);
 			}
 
 			// Returns if there is duplicate, and if there is some the duplicate indexes.
-			const fn duplicate_info(array: &[(usize, &'static str); #len]) -> (bool, usize, usize) {
-				let len = #len;
-				let mut i = 0usize;
-				while i < len {
-						let mut j = i + 1;
-						while j < len {
-								if array[i].0 == array[j].0 {
-									return (true, i, j);
+			const fn duplicate_info(array_: &[(usize, &'static str); #len]) -> (bool, usize, usize) {
+				let len_ = #len;
+				let mut i_ = 0usize;
+				while i_ < len_ {
+						let mut j_ = i_ + 1;
+						while j_ < len_ {
+								if array_[i_].0 == array_[j_].0 {
+									return (true, i_, j_);
 								}
-								j += 1;
+								j_ += 1;
 						}
-						i += 1;
+						i_ += 1;
 				}
 				(false, 0, 0)
 			}
@@ -112,7 +120,7 @@ pub fn const_eval_check_variant_indexes(
 			const DUP_INFO: (bool, usize, usize) = duplicate_info(&indices);
 
 			if DUP_INFO.0 {
-				let msg = #crate_path::__private::concatcp!(
+				let msg_ = #crate_path::__private::concatcp!(
 					"Found variants that have duplicate indexes. Both `",
 					indices[DUP_INFO.1].1,
 					"` and `",
@@ -122,8 +130,9 @@ pub fn const_eval_check_variant_indexes(
 					"`. Use different indexes for each variant."
 				);
 
-				::core::panic!("{}", msg);
+				::core::panic!("{}", msg_);
 			}
+			};
 		};
 	}
 }
